@@ -90,7 +90,11 @@ def main(tier, seed):
     _, rrow = read_csv(os.path.join(REPO, "data", "raw.csv"))
     want = [(r[0].encode(), documented_class(r)) for r in prow]
     # live table walk
-    rows = driver.run_lines(exe, ["T"])[0]
+    try:
+        rows = driver.run_lines(exe, ["T"])[0]
+    except driver.DriverCrash as c:
+        rep.violation("crash/%s" % c.signature(), {"op": "walk of tld_list[]"}, {"stderr": c.stderr[-1500:]})
+        rows = []
     live = [(bytes.fromhex(h), ln, ty) for h, ln, ty in rows]
     rep.counters["table.rows_live"] = len(live)
     rep.counters["csv.rows"] = len(want)
